@@ -90,6 +90,9 @@ def absorb_stats(res, ex):
 def _worker(task):
     modname, funcname, ob_id, kwargs = task
     t0 = time.time()
+    trace = os.environ.get("VERIF_TRACE")
+    if trace:
+        sys.stderr.write("TRACE start %s pid=%d t=%.0f\n" % (ob_id, os.getpid(), t0))
     res = new_result(ob_id)
     try:
         from symx import HarnessError, Inconclusive
@@ -102,6 +105,8 @@ def _worker(task):
         else:
             res["error"] = "%s: %s\n%s" % (name, e, traceback.format_exc()[-1500:])
     res["wall_s"] = time.time() - t0
+    if trace:
+        sys.stderr.write("TRACE end %s pid=%d wall=%.1f\n" % (ob_id, os.getpid(), res["wall_s"]))
     return res
 
 
